@@ -40,7 +40,9 @@ def generate(ctx):
         if name == "KernelSTDP":
             d["delay"] = rng.choice([None, 2, 3])
             d["delayed"] = bool(d["delay"]) and rng.random() < 0.5
-            d["delay_values"] = "ongrid"
+            # arrival-time mode reads the synapse's own (step-quantised) spike view; the delayed mode reads the raw event
+            # history one real-valued delay ago, sub-step delays included
+            d["delay_values"] = rng.choice(["ongrid", "offgrid", "offgrid"]) if d["delayed"] else "ongrid"
         if d["reward"] == "tensor":
             d["reduction"] = "sum"
         yield d
@@ -175,6 +177,8 @@ def _formula(ctx, desc):
         ctx.case(f"formula/{name}/{desc['conn']}/{desc['delay_values']}/signs{desc['signs']}/{red}/B{desc['B']}/"
                  f"{desc['reward'] if name in tr.THREE_FACTOR else '-'}/{'active' if active else 'silent'}")
         ctx.count("formula_steps_checked")
+        if name == "KernelSTDP" and hyper["delayed"] and desc["delay_values"] == "offgrid":
+            ctx.count("kernel_delayed_substep_delay_steps")
         if active:
             ctx.count("steps_with_change")
         else:
